@@ -1,4 +1,53 @@
-From XV Require Import Model.Hypergraph Model.HgCheck.
-Theorem C01_init_wf : wf_b hg_empty = true.
-Proof. reflexivity. Qed.
+(* C01 - undirected incidence integrity under every edit history.
+   Property theorems only; proofs live in Proofs/. *)
+From Coq Require Import String ZArith List Bool.
+From XV Require Import Base.Label Base.LSet Base.ODict Base.Attr Base.Outcome Model.Hypergraph Model.HgCheck
+  Proofs.HgViews Proofs.HgInv Proofs.HgInvOps Proofs.HgStep.
+Import ListNotations.
+
+(* the empty hypergraph satisfies the invariant *)
+Theorem C01_init_wf : Inv hg_empty.
+Proof. exact Inv_empty. Qed.
 Print Assumptions C01_init_wf.
+
+(* one call of any public mutator, returning or raising, keeps it (the post-state of a raising
+   call is the state the partial execution leaves behind) *)
+Theorem C01_step_wf : forall s o, op_admissible s o -> Inv s -> Inv (st_of (step s o)).
+Proof. exact step_Inv. Qed.
+Print Assumptions C01_step_wf.
+
+(* every history, and every prefix of it *)
+Theorem C01_history_wf : forall ops, admissible_history hg_empty ops -> Inv (run ops hg_empty).
+Proof. intros ops A. exact (run_Inv ops hg_empty A Inv_empty). Qed.
+Print Assumptions C01_history_wf.
+
+Theorem C01_prefix_wf : forall ops k, admissible_history hg_empty ops -> Inv (run (firstn k ops) hg_empty).
+Proof. intros ops k A. exact (run_prefix_Inv ops hg_empty k A Inv_empty). Qed.
+Print Assumptions C01_prefix_wf.
+
+(* what the invariant means for the reports of the API: two-way incidence, no dangling
+   reference, exactly one attribute record per node and per edge *)
+Theorem C01_reports : forall s, Inv s ->
+  (forall n e, In e (mships s n) <-> In n (mems s e)) /\
+  (forall e n, In n (mems s e) -> In n (nkeys s) /\ In e (ekeys s)) /\
+  (forall n e, In e (mships s n) -> In e (ekeys s) /\ In n (nkeys s)) /\
+  (forall n, In n (nkeys s) <-> has n (h_nattr s) = true) /\
+  (forall e, In e (ekeys s) <-> has e (h_eattr s) = true) /\
+  NoDup (nkeys s) /\ NoDup (ekeys s) /\ NoDup (keys (h_nattr s)) /\ NoDup (keys (h_eattr s)) /\
+  (forall n, NoDup (mships s n)) /\ (forall e, NoDup (mems s e)).
+Proof. exact Inv_reports. Qed.
+Print Assumptions C01_reports.
+
+(* non-vacuity: a 5-node, 4-edge state with a multi-edge and an empty edge is reached by an
+   admissible history and passes the executable well-formedness test *)
+Definition c01_example_ops : list op :=
+  [OAddEdgesFrom (EB1 [[LInt 1; LInt 2; LInt 3]; [LInt 1; LInt 2; LInt 3]; [LInt 4; LInt 5]]) [];
+   OAddEdge [] (Some (LStr "empty")) [];
+   ORemoveNode (LInt 5) false true;
+   ODoubleEdgeSwap (LInt 3) (LInt 4) (LInt 0) (LInt 2)].
+Example C01_nonvacuous :
+  admissible_history hg_empty c01_example_ops /\
+  wf_b (run c01_example_ops hg_empty) = true /\
+  length (h_edge (run c01_example_ops hg_empty)) = 4%nat.
+Proof. split; [simpl; tauto|split; vm_compute; reflexivity]. Qed.
+Print Assumptions C01_nonvacuous.
